@@ -3,7 +3,7 @@ from vlib import sesscheck
 
 ID = 'C10'
 LEVEL = 'exploration'
-RULE = "Same program space as C09 with read operations weighted up: after modifications the session reads attributes, to-one references, collection iteration/len/count()/is_empty()/in, Entity[pk], get()/exists()/select() by keyword, lambda filters, relationship filters, count/sum/min/max and to_dict(); every answer is compared with the reference store's current (unflushed) state. Non-trivial = a read issued in a session that has made at least one modification; distinct by program hash. A share of the programs (one third; one half for C11/C13/C15) comes from the hub family: every relationship starts at one entity, with cascading/unlinking relationships declared around a refusing one, populated, and then aimed operations (pending updates of children, pending removals on the hub collections, new children with explicit keys) precede the delete of the hub, so that deletes refused after part of their cascade are common."
+RULE = "Stub part (vlib/c10_stub.py): Owner objects enter the session as references of loaded Item rows (known by key only); the session assigns their scalar attributes and a self-reference, loads them by key, by queries and by filters, flushes and commits, and every attribute read, boss/subs read and the committed rows are compared with a dict model. Main part: Same program space as C09 with read operations weighted up: after modifications the session reads attributes, to-one references, collection iteration/len/count()/is_empty()/in, Entity[pk], get()/exists()/select() by keyword, lambda filters, relationship filters, count/sum/min/max and to_dict(); every answer is compared with the reference store's current (unflushed) state. Non-trivial = a read issued in a session that has made at least one modification; distinct by program hash. A share of the programs (one third; one half for C11/C13/C15) comes from the hub family: every relationship starts at one entity, with cascading/unlinking relationships declared around a refusing one, populated, and then aimed operations (pending updates of children, pending removals on the hub collections, new children with explicit keys) precede the delete of the hub, so that deletes refused after part of their cascade are common."
 ASSUMPTIONS = ['live SQLite (in-memory) with foreign keys enforced immediately',
                'reference store vlib/refstore.py written from the documented relationship/cascade/key semantics (DESIGN.md section 7a)',
                'table and column names are taken from the mapping metadata (names only)']
@@ -14,7 +14,31 @@ WEIGHTS = {'read': 14, 'flush': 1}
 
 run = sesscheck.make_run(ID, PROPS, 700, 6000, weights=WEIGHTS,
                          nontrivial=lambda program, stats: any(k.startswith('read:') for k in stats) and stats.get('call_ok', 0) > 2)
-replay = sesscheck.make_replay(ID, PROPS)
+_replay_session = sesscheck.make_replay(ID, PROPS)
+_run_session = run
+
+
+def run(ctx):
+    _run_session(ctx)
+    if ctx.violation is not None:
+        return
+    # stub part (vlib/c10_stub.py): writes to and reads of objects that entered the session as references only
+    from vlib import c10_stub
+
+    def ts(case):
+        msg = c10_stub.judge(case)
+        nt = c10_stub.nontrivial(case)
+        ctx.case(key=case, nontrivial=nt, classes=['stub_hist'], sample={'sessions': case['sessions']} if nt else None)
+        if msg:
+            ctx.fail(case, msg)
+    ctx.run_test(ts, dict(case=c10_stub.cases()), max_examples=ctx.scale(300, 3000), name='C10_stub')
+
+
+def replay(case):
+    if case.get('kind') == 'stub':
+        from vlib import c10_stub
+        return c10_stub.judge(case)
+    return _replay_session(case)
 
 MANIFEST = {
     'text': "Every read form named in the property is issued at generated points of generated histories and compared with the reference store's session-visible state (flushed or not).",
